@@ -14,6 +14,7 @@ package history
 
 import (
 	"bufio"
+	"bytes"
 	"encoding/hex"
 	"encoding/json"
 	"flag"
@@ -238,6 +239,9 @@ func (e *engine) keyView(key []byte, extra map[common.Hash]*block) keyView {
 		return kv
 	}
 	kv.ID = e.ids.id("h:" + hex.EncodeToString(rest))
+	if len(rest) > 32 {
+		kv.Pre = e.ids.id("h:" + hex.EncodeToString(rest[len(rest)-32:]))
+	}
 	if (kv.T == "body" || kv.T == "rcpt") && len(rest) == 32 {
 		h := common.BytesToHash(rest)
 		b := e.byHash[h]
@@ -695,12 +699,16 @@ func (e *engine) concretise(a *absCase, round int) *concrete {
 			c.key, vs = keyOf(sel, h), append(vs, "key:"+v)
 		}
 	}
-	if a.Kx { // over-long key: further bytes after the number
+	if a.Kx { // malformed length with the genuine value embedded: bytes after the number / between selector and hash
 		x := make([]byte, 1+rng.Intn(8))
 		if rng.Intn(2) == 0 {
 			rng.Read(x)
 		}
-		c.key, vs = append(c.key, x...), append(vs, fmt.Sprintf("key:overlong+%d", len(x)))
+		if a.Kt == "num" {
+			c.key, vs = append(c.key, x...), append(vs, fmt.Sprintf("key:overlong+%d", len(x)))
+		} else {
+			c.key, vs = append(append([]byte{c.key[0]}, x...), c.key[1:]...), append(vs, fmt.Sprintf("key:inserted+%d", len(x)))
+		}
 		keyBlock = nil
 	}
 	// the block whose genuine fields are the starting point of field-level mutations
@@ -934,6 +942,18 @@ func (e *engine) byteMutations(per int, layers map[string]bool) {
 				for _, x := range [][]byte{{0}, {1}, {0, 0, 0, 0, 0, 0, 0, 0}, []byte("trailing")} {
 					e.run(&concrete{idx: -1, variant: "key:overlong", blocks: b.name, key: append(append([]byte{}, p.key...), x...), content: p.content, mode: "honest", era: b.era}, layers)
 				}
+			}
+			// key length forms: the genuine hash / number with bytes inserted right after the selector, appended, or with
+			// its first / last byte missing - a comparison that pads or crops (common.BytesToHash) takes them for the key
+			for _, x := range [][]byte{{0}, {0xaa}, make([]byte, 12), bytes.Repeat([]byte{0x5c}, 32)} {
+				ins := append(append([]byte{p.key[0]}, x...), p.key[1:]...)
+				e.run(&concrete{idx: -1, variant: fmt.Sprintf("keyform:insert%d", len(x)), blocks: b.name, key: ins, content: p.content, mode: "honest", era: b.era}, layers)
+				app := append(append([]byte{}, p.key...), x...)
+				e.run(&concrete{idx: -1, variant: fmt.Sprintf("keyform:append%d", len(x)), blocks: b.name, key: app, content: p.content, mode: "honest", era: b.era}, layers)
+			}
+			if len(p.key) > 2 {
+				e.run(&concrete{idx: -1, variant: "keyform:dropfirst", blocks: b.name, key: append([]byte{p.key[0]}, p.key[2:]...), content: p.content, mode: "honest", era: b.era}, layers)
+				e.run(&concrete{idx: -1, variant: "keyform:droplast", blocks: b.name, key: append([]byte{}, p.key[:len(p.key)-1]...), content: p.content, mode: "honest", era: b.era}, layers)
 			}
 			for m := 0; m < per/4+1; m++ {
 				mk, v := mutBytes(rng, p.key[1:])
